@@ -94,11 +94,12 @@ func init() {
 			return js
 		},
 		Bounds: map[string]string{
-			"quick":    "length formulas: 18 request types, every legal quantity symbolic; exchanges: 10 functions x {TCP client, RTU network client, serial client} x reply sizes {min, mid, max} x up to 2 reads with the cut position case-split over {0..12, E-1, E, E+1, L-3, L-2, L-1} and an optional empty timed-out read before each chunk; for the smallest reply of every function (at most 16 bytes, where that set is every position) also every pair of cut positions (3 reads); reply payload bytes symbolic; exception replies with symbolic code",
+			"quick":    "length formulas: 18 request types, every legal quantity symbolic; exchanges: 10 functions x {TCP client, RTU network client, serial client} x reply sizes {min, mid, max} x up to 2 reads with the cut position case-split over {0..12, E-1, E, E+1, L-3, L-2, L-1} and an optional empty timed-out read before each chunk (serial port: reported either as a deadline error or as io.EOF), the first chunk optionally delivered together with a deadline error; for the smallest reply of every function (at most 16 bytes, where that set is every position) also every pair of cut positions (3 reads); reply payload bytes symbolic; exception replies with symbolic code",
 			"thorough": "up to 3 reads (two cut positions); more reply sizes",
 		},
 		Outside:     []string{"more reads than the bound; cut positions outside the case-split set (positions between 13 and E-2 behave like 12: no comparison in the loop distinguishes them)", "transports violating the io.Reader contract", "real timer behaviour: the timer fires only when the harness lets time pass (after the reply has been delivered completely)"},
 		Assumptions: []string{"time.After readiness is controlled by the harness (vndAdvanceTime); time.Sleep is a no-op; sync.RWMutex sequential model"},
+		TimeoutMS:   120000, // the floating-point Ceil queries need well under a second on an idle machine; margin for a loaded one
 		MinCovers:   []string{"constructed", "exchange", "loop-shape"},
 	})
 }
@@ -125,16 +126,19 @@ func init() {
 				for which := 0; which < 3; which++ {
 					js = append(js, sym.Job{Harness: "VH_C08_precondition", Params: map[string]int{"mode": mode, "which": which}})
 				}
+				for _, fault := range []int{1, 2, 3, 4, 5, 7, 8} {
+					js = append(js, sym.Job{Harness: "VH_C08_sequence", Params: map[string]int{"mode": mode, "fault": fault}})
+				}
 			}
 			return js
 		},
 		Bounds: map[string]string{
-			"quick":    "10 functions x 3 clients x reply sizes {min,mid,max} x fault in {stall, EOF, I/O error, oversize (max+1 bytes or a full buffer), write error, write-deadline error, caller's context cancelled, caller's context deadline expired} x prefix length case-split over {0..12, E-1, E, E+1, L-3..L-1} delivered in one read; serial flush failure symbolic; preconditions: nil request, unconnected client, context cancelled before the call",
+			"quick":    "10 functions x 3 clients x reply sizes {min,mid,max} x fault in {stall, EOF, I/O error, oversize (max+1 bytes or a full buffer), write error, write-deadline error, caller's context cancelled, caller's context deadline expired} x prefix length case-split over {0..12, E-1, E, E+1, L-3..L-1} delivered in one read; serial flush failure symbolic; preconditions: nil request, unconnected client, context cancelled before the call; sequences: a faulted call followed by a healthy call on the same client (the second must terminate and succeed)",
 			"thorough": "prefix delivered in up to 2 reads with optional empty timed-out reads; more reply sizes",
 		},
 		Outside:     []string{"wall-clock bound: decided relative to the stated timer model (the timer channel becomes ready when the transport lets time pass; a read returns by its deadline)", "faults after more reads than the bound"},
 		Assumptions: []string{"time.After readiness is controlled by the harness (vndAdvanceTime); at most 6 further reads after the scripted prefix before a path is cut"},
-		MinCovers:   []string{"returned", "precondition"},
+		MinCovers:   []string{"returned", "precondition", "second-call"},
 	})
 }
 
